@@ -8,7 +8,9 @@ from ..impl import Species, Network, Reaction, ReactionType, reset_globals, fnum
 
 TRUST = ["Python dict lookup is modelled as 'first inserted key that compares equal' (hash consistent with ==): "
          "holds for one spelling per species and, since fix 3b41211, for the electron under any of its spellings "
-         "(the generator mixes those); the pairwise oracle uses the harness's own equivalence, not Reaction.__eq__"]
+         "(the generator mixes those): equal-implies-same-hash is now theorem equal_reactions_hash_alike over the model of "
+         "Reaction.__hash__, compared with hash() on sampled pairs; the pairwise oracle uses the harness's own equivalence, "
+         "not Reaction.__eq__"]
 
 ALPHABET = ["H", "H2", "C", "CO", "O", "e-", "H+", "C+", "OH", "H2O", "#CO", "#H2O", "HCO+", "He", "He+", "E-", "E", "e"]
 ELECTRON = {"e-", "E-", "e", "E"}          # every spelling the package documents for the electron
@@ -151,7 +153,27 @@ def check_case(res, model, desc, mode, ids, tag):
     pairs = [(i, j) for i in range(n) for j in range(i + 1, n)]
     if len(pairs) > 200:                       # long lists: a fixed pseudo-random sample of the pairs
         pairs = random.Random(n * 7919 + len(desc[0]["r"])).sample(pairs, 200)
+    # Reaction.__hash__ (default and brief mode look reactions up in a dict): equal reactions must hash alike,
+    # and the hash must be the model's (sorted species hash classes)
+    hobj = rl if mode is None else [Reaction(r.reactants, r.products) for r in rl] if mode == "brief" else None
+    mh = None
+    if hobj is not None and model is not None and n:
+        hcls = {}
+        hm = []
+        for a in ALPHABET:
+            hm.append([ids[a], hcls.setdefault(hash(Species(a)), len(hcls))])
+        mh = model.call("c15.hash", hm, model_keys(desc, rl, ids))
     for i, j in pairs:
+        if hobj is not None:
+            same_hash = hash(hobj[i]) == hash(hobj[j])
+            if want_eq(i, j) and not same_hash:
+                res.violation("oracle", f"mode={mode}: reactions {i} and {j} are equivalent but hash differently: the dictionary-based search cannot "
+                                        f"find one from the other ({desc[i]['r']}->{desc[i]['p']} vs {desc[j]['r']}->{desc[j]['p']})", case)
+                return None
+            if mh is not None and same_hash != (mh[i] == mh[j]):
+                res.corr_disagreements += 1
+                res.violation("correspondence", f"mode={mode}: hash(reaction {i}) == hash(reaction {j}) is {same_hash}, the model's hash lists are {mh[i]} / {mh[j]}", case)
+                return None
         if True:
             if bool(ieq(i, j)) != want_eq(i, j) or bool(ieq(j, i)) != want_eq(i, j):
                 d = lambda k: f"{'+'.join(desc[k]['r'])}->{'+'.join(desc[k]['p'])} [{desc[k]['tmin']},{desc[k]['tmax']}] type {desc[k]['type']}"
